@@ -134,11 +134,14 @@ def regex_limits(cx, quick):
         re_ = "(" + re_ + "){%d}" % m if m > 1 else re_
         cx.compile_case("regex-size", re_[:50], "rule r { strings: $a = /%s/ condition: $a }" % re_, "either-large")
     # fibers at scan time
-    shapes = ["(a|b|ab)*c", "(a?){6}b", "(.?)*x", "(a*)*b", "(a|aa|aaa)*$", "a*a*a*a*a*b"]
-    bufs = [b"a" * 10, b"ab" * 8, b"a" * 30 + b"b", b"abab" * 10 + b"c"]
+    # the fiber that breaks the limit can be requested after a consuming instruction, after a zero-width assertion (\b \B ^ $) or during the initial expansion:
+    # shapes with the branching behind / in front of assertions; afterwards a benign REGEX (it needs fibers from the same pool) must still match on the same scanner
+    shapes = ["(a|b|ab)*c", "(a?){6}b", "(.?)*x", "(a*)*b", "(a|aa|aaa)*$", "a*a*a*a*a*b", "l((\\w,\\b){1,30}){1,40}!", "l((\\w\\b,|\\w\\B,){1,20}){1,30}!", "l(\\b(a|aa|ab)){1,40}$",
+              "((a|ab)\\B(b|a)*)*c", "l((\\w,){1,30}\\b){1,40}!"]
+    bufs = [b"a" * 10, b"ab" * 8, b"a" * 30 + b"b", b"abab" * 10 + b"c", b"l" + b"a," * 60 + b"?", b"l" + b"aab" * 30]
     for sh in shapes:
-        rep = cx.batch(["reset", "compiler 0", "add 0 - " + yv.hx("rule r { strings: $a = /%s/ condition: $a } rule other { strings: $b = \"qq\" condition: $b }" % sh), "getrules 0 0", "cdestroy 0", "scanner 0 0"] +
-                       ["scan target=s0 via=mem ml=0 data=" + yv.hx(b) for b in bufs] + ["scan target=s0 via=mem ml=0 data=" + yv.hx(b"zz qq zz"), "reset"] + CANARY)
+        rep = cx.batch(["reset", "compiler 0", "add 0 - " + yv.hx("rule r { strings: $a = /%s/ condition: $a } rule other { strings: $b = /q+[rs]\\b/ condition: $b }" % sh), "getrules 0 0", "cdestroy 0", "scanner 0 0"] +
+                       ["scan target=s0 via=mem ml=0 data=" + yv.hx(b) for b in bufs] + ["scan target=s0 via=mem ml=0 data=" + yv.hx(b"zz qqr zz"), "sdestroy 0", "live", "reset"] + CANARY)
         cx.n += 1
         if isinstance(rep, Exception):
             cx.ck.violation("C15:regex-fibers:crash", dict(regex=sh, error=str(rep), stderr=getattr(rep, "err", "")[-1500:])); continue
